@@ -358,6 +358,9 @@ def splitTop (stepf : Depth → Tok → Depth) (ts : List Tok) : List (List Tok)
   | some [] => segs.dropLast
   | _ => segs
 
+/-- `str::to_lowercase` on the ASCII names used here (kernel-reducible, unlike `String.toLower`). -/
+def lower (s : String) : String := String.ofList (s.toList.map Char.toLower)
+
 def simpleAggs : List String := ["count", "count_distinct", "sum", "min", "max", "avg"]
 
 /-- builtin function names (`BuiltinFunc::as_str`, ast/mod.rs:331); compared with the real table by
@@ -372,16 +375,19 @@ def builtinNames : List String :=
    "floor", "ceil", "sign", "to_float", "to_int", "len", "upper", "lower", "trim", "substr", "replace",
    "concat", "min_val", "max_val"]
 
-/-- does `contains_arithmetic_operator` (parser/mod.rs:645) fire?  `prev` = previous token. -/
+/-- would `contains_arithmetic_operator` (parser/mod.rs:645) count the operator `o` preceded by `prev`? -/
+def opSeen (o : AOp) (prev : Option Tok) : Bool :=
+  match o with
+  | .add => !(match prev with | some p => p.sciBefore | none => false)
+  | .sub => (match prev with | some p => !p.sciBefore && p.endsOperand | none => false)
+  | _ => true
+
+/-- does `contains_arithmetic_operator` fire?  `prev` = previous token. -/
 def hasArithOpAux : Option Tok → List Tok → Bool
   | _, [] => false
   | prev, t :: ts =>
     (match t with
-     | .op o =>
-       (match o with
-        | .add => !(match prev with | some p => p.sciBefore | none => false)
-        | .sub => (match prev with | some p => !p.sciBefore && p.endsOperand | none => false)
-        | _ => true)
+     | .op o => opSeen o prev
      | _ => false) || hasArithOpAux (some t) ts
 
 def hasArithOp (ts : List Tok) : Bool := hasArithOpAux none ts
@@ -391,39 +397,46 @@ def isVarName (s : String) : Bool :=
   | c :: _ => c.isUpper || c == '_'
   | [] => false
 
-/-- `parse_term` (parser/mod.rs:478) on the tokens of one argument, calls excluded. -/
+/-- one-token terms: `_`, variable, `true`/`false`, string, integer, float (parser/mod.rs:482-605). -/
+def parseSingle : Tok → Option Term0
+  | .ident s =>
+    if s == "_" then some .wild
+    else if isVarName s then some (.var s)
+    else if s == "true" then some (.bool true)
+    else if s == "false" then some (.bool false)
+    else none
+  | .str s => some (.str s)
+  | .int n => some (.const n)
+  | .fint _ n => some (.const n)
+  | .flt f => some (.flt f)
+  | _ => none
+
+def vecElem : List Tok → Option FloatLit
+  | [Tok.flt f] => some f
+  | _ => none
+
+/-- vector literal: plain split on commas, every element read with `parse::<f64>()` (parser/mod.rs:611). -/
+def parseVec (rest : List Tok) : Option Term0 :=
+  if rest.getLast? == some .rb then
+    let inner := rest.dropLast
+    if inner.isEmpty then some (.vec [])
+    else (optMapM vecElem (splitTop (fun d _ => d) inner)).map .vec
+  else none
+
+/-- `parse_term` (parser/mod.rs:478) on the tokens of one argument, calls excluded: vector, aggregate
+    `f<V>`, otherwise arithmetic if an operator is present. -/
 def parseTerm0 (ts : List Tok) : Option Term0 :=
   match ts with
-  | [.ident "_"] => some .wild
-  | [.str s] => some (.str s)
-  | [.ident fn, .la, .ident v, .ra] => if simpleAggs.contains fn.toLower then some (.agg fn.toLower v) else none
-  | [.int n] => some (.const n)
-  | [.fint _ n] => some (.const n)
-  | [.flt f] => some (.flt f)
-  | _ =>
-    match ts with
-    | .lb :: rest =>
-      -- vector literal: plain split on commas, every element read with `parse::<f64>()`
-      if rest.getLast? == some .rb then
-        let inner := rest.dropLast
-        if inner.isEmpty then some (.vec [])
-        else (optMapM (fun seg => match seg with | [Tok.flt f] => some f | _ => none) (splitTop (fun d _ => d) inner)).map .vec
-      else none
-    | _ =>
-      if hasArithOp ts then (parseArith ts).map .arith
-      else match ts with
-        | [.ident s] =>
-          if isVarName s then some (.var s)
-          else if s == "true" then some (.bool true)
-          else if s == "false" then some (.bool false)
-          else none
-        | _ => none
+  | [t] => parseSingle t
+  | .lb :: rest => parseVec rest
+  | [.ident fn, .la, .ident v, .ra] => if simpleAggs.contains (lower fn) then some (.agg (lower fn) v) else none
+  | _ => if hasArithOp ts then (parseArith ts).map .arith else none
 
 def parseTerm (ts : List Tok) : Option Term :=
   match ts with
   | .ident fn :: .lp :: rest =>
-    if rest.getLast? == some .rp && builtinNames.contains fn.toLower then
-      (optMapM parseTerm0 (splitTop Depth.stepArgs rest.dropLast)).map (.call fn.toLower)
+    if rest.getLast? == some .rp && builtinNames.contains (lower fn) then
+      (optMapM parseTerm0 (splitTop Depth.stepArgs rest.dropLast)).map (.call (lower fn))
     else (parseTerm0 ts).map .base
   | _ => (parseTerm0 ts).map .base
 
@@ -452,18 +465,22 @@ def cmpMatches (c : CmpOp) : Tok → Bool
   | .ra => c == .gt
   | _ => false
 
-def findCmpAux (c : CmpOp) : List Tok → Nat → List Tok → Option (List Tok × List Tok)
+/-- `find_operator_outside_parens` (parser/mod.rs:284) counts parentheses only. -/
+def Depth.stepParen (d : Depth) : Tok → Depth
+  | .lp => { d with p := d.p + 1 }
+  | .rp => { d with p := d.p - 1 }
+  | _ => d
+
+def findCmpAux (c : CmpOp) : List Tok → Depth → List Tok → Option (List Tok × List Tok)
   | [], _, _ => none
   | t :: ts, d, leftRev =>
-    match t with
-    | .lp => findCmpAux c ts (d + 1) (t :: leftRev)
-    | .rp => findCmpAux c ts (d - 1) (t :: leftRev)
-    | _ => if d == 0 && cmpMatches c t then some (leftRev.reverse, ts) else findCmpAux c ts d (t :: leftRev)
+    if cmpMatches c t && d.isZero then some (leftRev.reverse, ts)
+    else findCmpAux c ts (d.stepParen t) (t :: leftRev)
 
 /-- `try_parse_comparison` (parser/mod.rs:168): operators tried in the order != <= >= < > =. -/
 def findCmp (ts : List Tok) : Option (List Tok × CmpOp × List Tok) :=
   [CmpOp.ne, .le, .ge, .lt, .gt, .eq].findSome? fun c =>
-    (findCmpAux c ts 0 []).map fun (l, r) => (l, c, r)
+    (findCmpAux c ts {} []).map fun (l, r) => (l, c, r)
 
 def dropBangs : List Tok → List Tok
   | .bang :: ts => dropBangs ts
@@ -630,6 +647,43 @@ def Rule.atomParen (r : Rule) : Bool := r.head.lastArgEndsParen || r.body.any Bo
 
 /-- the catalog serialisation keeps the rule as it is. -/
 def Rule.serStable (r : Rule) : Bool := decide (serRule r = r)
+
+/-! ### well-formedness of parsed rules (what the parser's image satisfies) -/
+
+def AExpr.isAddBin : AExpr → Bool
+  | .bin op _ _ => op.isAdd
+  | _ => false
+
+def AExpr.isBin : AExpr → Bool
+  | .bin _ _ _ => true
+  | _ => false
+
+/-- variables look like variables, an arithmetic term has an operator at its root, aggregate and
+    function names are the canonical ones. -/
+def Term0.wf : Term0 → Bool
+  | .var s => isVarName s && s != "_"
+  | .arith e => e.isBin
+  | .agg fn _ => simpleAggs.contains fn
+  | _ => true
+
+def Term.wf : Term → Bool
+  | .base t => t.wf
+  | .call fn args => builtinNames.contains fn && args.all Term0.wf
+
+def Atom.wf (a : Atom) : Bool := a.args.all Term.wf
+
+/-- a comparison side is not an aggregate (its `<`/`>` would be taken for the comparison) and not a
+    vector (its commas would split the body). -/
+def Term.cmpSideOk : Term → Bool
+  | .base (.agg _ _) => false
+  | .base (.vec _) => false
+  | _ => true
+
+def BodyLit.wf : BodyLit → Bool
+  | .pos a | .neg a => a.wf
+  | .cmp l _ r => l.wf && r.wf && l.cmpSideOk && r.cmpSideOk
+
+def Rule.wf (r : Rule) : Bool := r.head.wf && r.body.all BodyLit.wf
 
 /-! ### the submission paths -/
 
